@@ -278,7 +278,7 @@ CLAIMS = {
     design_ref="DESIGN.md §3 C20",
     note="Trusted: Lean kernel; the hand-written model's placement of panic markers (validated by catch_unwind on every "
          "call); the driver's JSON tokenizer; chrono/serde_json/ndarray themselves. Rust's Unicode lower-casing modelled "
-         "by lowerStr, exact on U+0000-U+00FF and U+0400-U+045F (every code point swept on every run), cased letters "
+         "by lowerStr, exact on U+0000-U+00FF, U+0400-U+045F and the six capitals whose lower-case form changes its UTF-8 length (every code point swept on every run), cased letters "
          "elsewhere outside the modelled domain. The per-type from_json entry points (NamedCal, Cal, UnionCal, FXRates, Dual, "
          "Dual2) receive the same mutated documents as the tagged one (`loadtyped` lines).",
     technique="Lean 4 proof (totality and shape invariants over every input / every JSON tree) + differential correspondence under catch_unwind and process isolation + model-free oracle"),
